@@ -111,6 +111,47 @@ def run(ck):
     ck.judge(ok_entry, "C10-T4", "process:res_buf:initially-empty", "response buffer is a fresh Vec::new() at loop entry",
              "response buffer is not a fresh empty vector at loop entry")
 
+    response_typestate(ck, exits, res_id, "C10-T4")
+
+    # T6: the terminator scan is left for the next read only when no terminator remains in the scanned window:
+    # every path from the scan loop's head to the outer back-edge carries `position(newline) is None`
+    heads = sorted(ps.loops)
+    inner = [h for h in heads if any(st.env.get(res_id, ("x",))[0] == "loopvar" for st in ps.loops[h]["entry"])]
+    n6 = 0
+    for i, x in enumerate(exits):
+        if x.kind != "backedge":
+            continue
+        hs = [e[1] for e in x.effects if e[0] == "loop_head"]
+        if len(hs) < 2 or x.extra == hs[-1]:
+            continue        # not a path from the scan loop back to the outer loop
+        n6 += 1
+        scan_none = any(c[0] == "is" and c[2] == pathsum.SOME and c[3] is False and c[1][0] == "call" and c[1][1].endswith("::position") for c in x.conds)
+        scan_some = any(c[0] == "is" and c[2] == pathsum.SOME and c[3] is True and c[1][0] == "call" and c[1][1].endswith("::position") for c in x.conds)
+        ck.judge(scan_none and not scan_some, "C10-T6", "process:scan-exit#%d" % n6, "scan loop left only when no terminator remains in the window",
+                 "the terminator scan is left although a terminator was found (a complete message may stay unanswered in the buffer while process reads on)",
+                 str(x.extra), data={"path": pathsum.show_exit(x)[:1500]})
+    ck.floor("C10-T6", "paths from the scan loop to the next read", n6, 2)
+
+    # T5: uses of the response buffer in HIR
+    allowed = {RUN: "arg", ADAPTER + "write": "arg"}
+    n_uses = 0
+    for xnode in hir.walk(body):
+        if xnode.get("k") == "Path" and xnode["res"].get("r") == "Local" and xnode["res"]["id"] == res_id:
+            n_uses += 1
+            p = pm.get(id(xnode))
+            while p is not None and p.get("k") in ("AddrOf", "Unary"):
+                p = pm.get(id(p))
+            cal = hir.base_path(hir.callee(p) or "") if p else None
+            ok = cal is not None and (cal in allowed or cal.endswith("::is_empty") or cal.endswith("::clear"))
+            ck.judge(ok, "C10-T5", "process:res_buf-use#%d:%s" % (n_uses, (cal or "?").split("::")[-1]),
+                     "response buffer used by %s" % cal, "response buffer used by %s (%s)" % (cal, hir.show(p) if p else "?"), hir.loc(xnode))
+    ck.floor("C10-T5", "uses of the response buffer", n_uses, 4)
+
+
+def response_typestate(ck, exits, res_id, rid):
+    """T4: typestate of the response buffer along every path segment."""
+    def is_res(t):
+        return isinstance(t, tuple) and t and t[0] in ("loopvar", "local") and t[1] == res_id
     # T4: typestate per path
     for i, x in enumerate(exits):
         state = "empty"      # hypothesis at every loop head / entry
@@ -156,21 +197,17 @@ def run(ck):
         if x.kind == "backedge" and (state != "empty" or pending_flush):
             problems.append("back-edge with response buffer %s%s" % (state, ", unflushed" if pending_flush else ""))
         if saw_run or problems:
-            ck.judge(not problems, "C10-T4", "process:path#%d:%s" % (i, x.kind),
+            ck.judge(not problems, rid, "process:path#%d:%s" % (i, x.kind),
                      "response typestate ok: " + "; ".join(e[1].split("::")[-1] for e in x.effects if e[0] == "call" and (e[1].startswith(ADAPTER) or e[1] == RUN or "is_empty" in e[1] or "clear" in e[1])),
                      "; ".join(problems), str(x.extra))
 
-    # T5: uses of the response buffer in HIR
-    allowed = {RUN: "arg", ADAPTER + "write": "arg"}
-    n_uses = 0
-    for xnode in hir.walk(body):
-        if xnode.get("k") == "Path" and xnode["res"].get("r") == "Local" and xnode["res"]["id"] == res_id:
-            n_uses += 1
-            p = pm.get(id(xnode))
-            while p is not None and p.get("k") in ("AddrOf", "Unary"):
-                p = pm.get(id(p))
-            cal = hir.base_path(hir.callee(p) or "") if p else None
-            ok = cal is not None and (cal in allowed or cal.endswith("::is_empty") or cal.endswith("::clear"))
-            ck.judge(ok, "C10-T5", "process:res_buf-use#%d:%s" % (n_uses, (cal or "?").split("::")[-1]),
-                     "response buffer used by %s" % cal, "response buffer used by %s (%s)" % (cal, hir.show(p) if p else "?"), hir.loc(xnode))
-    ck.floor("C10-T5", "uses of the response buffer", n_uses, 4)
+
+
+
+def identify_res_buf(exits):
+    ids = set()
+    for x in exits:
+        for e in x.effects:
+            if e[0] == "call" and e[1] == RUN and len(e[2]) >= 3 and e[2][2][0] in ("loopvar", "local"):
+                ids.add(e[2][2][1])
+    return ids.pop() if len(ids) == 1 else None
